@@ -177,6 +177,20 @@ impl TransportVisitor for V {
                     op!("complete_read_blocks", unsafe { b.complete_read_blocks(tok, &req, &mut buf, &mut resp) });
                 }
                 op!("read_blocks#2", b.read_blocks(3, &mut buf));
+                // Requests that run past the last sector of the (8-sector) device, blocking and
+                // non-blocking: whatever the driver and the device make of them, what was shared
+                // is what is unshared.
+                let mut two = vec![0u8; 1024];
+                op!("read_blocks(across the end)", b.read_blocks(7, &mut two));
+                op!("write_blocks(across the end)", b.write_blocks(7, &two));
+                let tok = op!("read_blocks_nb(across the end)", unsafe { b.read_blocks_nb(7, &mut req, &mut two, &mut resp) });
+                if let Some(Ok(tok)) = tok {
+                    op!("complete_read_blocks(across the end)", unsafe { b.complete_read_blocks(tok, &req, &mut two, &mut resp) });
+                }
+                let tok = op!("write_blocks_nb(across the end)", unsafe { b.write_blocks_nb(7, &mut req, &two, &mut resp) });
+                if let Some(Ok(tok)) = tok {
+                    op!("complete_write_blocks(across the end)", unsafe { b.complete_write_blocks(tok, &req, &two, &mut resp) });
+                }
             }
             AnyDriver::Console(c) => {
                 op!("send", c.send(b'x'));
